@@ -602,6 +602,8 @@ def rules(rep, facts):
                   'land in another table and the document no longer reads back as itself', floor=30)
     from .shared import visit_table_model
     visit_table_model(rep, R6, facts)
+    from .rules_events import r_round_trip
+    r_round_trip(rep, facts)
 
 
 def _witnesses(rep):
